@@ -167,8 +167,22 @@ def run(chk):
         is_inner = lambda x: is_call(x, "Deserialize::deserialize")
         ok = bool(inner) and outs and all(o.variant[:1] == ("Ok",) for o in outs) and any(flow.asserts_fail(t, l, is_inner) for o in outs for t, l, f, w in o.conds)
         chk.ob("R1 lenient members", "R1|helper|ignore_unknown|absorbing", ok, where(iu), "outcomes: %s" % [(o.vstr(), flow.term_str(o.value)[:80]) for o in outs])
-    pu = [b for b in p.all_bodies if b.path.endswith("::deserialize") and "PossiblyUnknown" in b.path and b.path == b.root]
-    if chk.require("R1 lenient members", "R1|helper|PossiblyUnknown", len(pu) == 1, SER, "PossiblyUnknown::deserialize not found"):
+    # the visitor of ignore_unknown_opt_vec (a private type declared inside it, whatever its name) and the element type it
+    # reads the sequence as (the private "known or not" wrapper, whatever its name)
+    def visitor_ty(t):
+        """the visitor type handed to deserialize_any / deserialize_seq ... : last generic argument, without its own arguments"""
+        g = [x for x in (t.get("gargs") or []) if x and not x.startswith("'")]
+        return names.strip_generics(g[-1]) if g else None
+    vs = [b for b in p.all_bodies if "ignore_unknown_opt_vec::" in b.path and b.path.endswith("::visit_seq")]
+    elem = ""
+    if chk.require("R1 lenient members", "R1|helper|ignore_unknown_opt_vec", len(vs) == 1, SER, "the visit_seq of ignore_unknown_opt_vec's visitor not found"):
+        b = vs[0]
+        chk.touched(b)
+        ne = [t for bb, t in b.calls() if names.call_is(t, "SeqAccess::next_element")]
+        elem = visitor_ty(ne[0]) or "" if ne else ""
+    pu = [b for b in p.all_bodies if b.path.endswith("::deserialize") and b.path == b.root and elem and elem.startswith("passkey_types::") and ("<%s<" % elem in b.path or "<%s as" % elem in b.path)]
+    lenient_elem = False
+    if chk.require("R1 lenient members", "R1|helper|PossiblyUnknown", len(pu) == 1, SER, "the Deserialize impl of the sequence's element wrapper (%s) not found" % (elem or "?")):
         chk.touched(pu[0])
         outs = normal.rows(S, pu[0], N, expand=False)
         inner = set()
@@ -177,26 +191,29 @@ def run(chk):
             if v and v[0] == "agg":
                 inner.add(v[2])
         ok = len(outs) >= 2 and all(o.variant[:1] == ("Ok",) for o in outs) and inner >= {"Some", "None"}
+        lenient_elem = ok
         chk.ob("R1 lenient members", "R1|helper|PossiblyUnknown|maps-error-to-unknown", ok, where(pu[0]), "outcomes: %s" % [(o.vstr(), flow.term_str(o.value)[:60]) for o in outs])
-    vs = [b for b in p.all_bodies if "ignore_unknown_opt_vec::IgnoreUnknown" in b.path and b.path.endswith("::visit_seq")]
-    if chk.require("R1 lenient members", "R1|helper|ignore_unknown_opt_vec", len(vs) == 1, SER, "IgnoreUnknown::visit_seq not found"):
+    if len(vs) == 1:
         b = vs[0]
-        chk.touched(b)
-        ne = [t for bb, t in b.calls() if names.call_is(t, "SeqAccess::next_element")]
-        elem = " ".join(ne[0].get("gargs", [])) if ne else ""
         push = names.calls_to(b, "Vec::push")
         guarded = False
         if push:
             conds = flow.conditions(p, b, push[0][0])
             guarded = any(c[0] == "discr" for sb, l, c in conds)
-        chk.ob("R1 lenient members", "R1|helper|ignore_unknown_opt_vec|drops-unknown-elements", "PossiblyUnknown" in elem and guarded, where(b), "elements are read as %s and pushed only when known: %s" % (elem.rsplit("::", 1)[-1], guarded))
+        chk.ob("R1 lenient members", "R1|helper|ignore_unknown_opt_vec|drops-unknown-elements", len(pu) == 1 and guarded, where(b), "elements are read as %s and pushed only when known: %s" % (elem.rsplit("::", 1)[-1], guarded))
     iv = fn("ignore_unknown_vec")
     if iv is not None:
         chk.touched(iv)
         chk.ob("R1 lenient members", "R1|helper|ignore_unknown_vec|delegates", bool(names.calls_to(iv, "serde::ignore_unknown_opt_vec")), where(iv), "ignore_unknown_vec delegates to ignore_unknown_opt_vec")
+    # the string-or-number visitor: the private visitor type maybe_stringified hands to deserialize_any (whatever its name)
+    ms = fn("maybe_stringified")
+    SON = None
+    if ms is not None:
+        da = [t for bb, t in ms.calls() if names.call_is(t, "Deserializer::deserialize_any")]
+        SON = visitor_ty(da[0]) if len(da) == 1 else None
     son = {}
     for (adt, trait, name), bodies in p.methods.items():
-        if adt and adt.endswith("utils::serde::StringOrNum") and trait and trait.endswith("::Visitor"):
+        if adt and SON and names.strip_generics(adt) == SON and trait and trait.endswith("::Visitor"):
             son[name] = bodies[0]
     need = {"visit_str", "visit_i64", "visit_u64", "visit_f64"}
     chk.ob("R1 lenient members", "R1|helper|StringOrNum|visitor-methods", need <= set(son), SER + "StringOrNum", "implements %s" % sorted(k for k in son if k.startswith("visit_")))
@@ -230,17 +247,23 @@ def run(chk):
     ms = fn("maybe_stringified")
     if ms is not None:
         chk.touched(ms)
-        ok = any(names.call_is(t, "Deserializer::deserialize_any") and "StringOrNum" in " ".join(t.get("gargs", [])) for bb, t in ms.calls())
+        ok = SON is not None and SON.startswith("passkey_types::") and bool(son)
         chk.ob("R1 lenient members", "R1|helper|maybe_stringified|uses-StringOrNum", ok, where(ms), "maybe_stringified = deserialize_any(StringOrNum): %s" % ok)
     i64 = fn("i64_to_iana::deserialize")
     if i64 is not None:
         chk.touched(i64)
-        ok = any(names.call_is(t, "Deserializer::deserialize_any") and "StringOrNum" in " ".join(t.get("gargs", [])) for bb, t in i64.calls())
+        ok = SON is not None and any(names.call_is(t, "Deserializer::deserialize_any") and visitor_ty(t) == SON for bb, t in i64.calls())
         chk.ob("R1 lenient members", "R1|helper|i64_to_iana|uses-StringOrNum", ok, where(i64), "i64_to_iana::deserialize = deserialize_any(StringOrNum) then from_i64: %s" % ok)
     # Bytes
+    # the visitor Bytes::deserialize hands to the deserializer (a private type, whatever its name)
+    bd = p.method("passkey_types::utils::bytes::Bytes", "deserialize", trait="serde_core::de::Deserialize") or p.method("passkey_types::utils::bytes::Bytes", "deserialize", trait="serde::de::Deserialize")
+    BV = None
+    if bd is not None:
+        da = [t for bb, t in bd.calls() if (t.get("callee") or "").startswith("serde_core::de::Deserializer::deserialize_") or (t.get("callee") or "").startswith("serde::de::Deserializer::deserialize_")]
+        BV = visitor_ty(da[0]) if len(da) == 1 else None
     bv = {}
     for (adt, trait, name), bodies in p.methods.items():
-        if adt and adt.endswith("Base64Visitor") and trait and trait.endswith("::Visitor"):
+        if adt and BV and names.strip_generics(adt) == BV and trait and trait.endswith("::Visitor"):
             bv[name] = bodies[0]
     need = {"visit_seq", "visit_bytes", "visit_str", "visit_string", "visit_borrowed_str"}
     chk.ob("R1 lenient members", "R1|Bytes|visitor-methods", need <= set(bv), "passkey_types::utils::bytes::Bytes", "Bytes visitor implements %s" % sorted(k for k in bv if k.startswith("visit_")))
